@@ -2,6 +2,8 @@ package main
 
 import (
 	"fmt"
+	"os"
+	"path/filepath"
 	"sort"
 	"strconv"
 	"strings"
@@ -842,7 +844,56 @@ type c15Replay struct {
 
 var c15Count int
 
+// c15LocalsOfQueryCalls: a function that declares a temporary table, variable or cursor under a name the calling query itself uses
+// (the file it reads, a variable it mentions) is called once per row by that query. Each invocation works on its own local
+// objects: its results are those of the same call made from a plain statement, and the caller's file and variable are untouched.
+func c15LocalsOfQueryCalls(w *core.Worker, i int) {
+	r := w.Rng(i, "locals")
+	for k := 0; k < 6; k++ {
+		core.WriteFiles(w.Work, map[string]string{"items.csv": "n\n1\n2\n3\n"})
+		decl := []string{
+			"DECLARE items VIEW (n) AS SELECT 100; INSERT INTO items VALUES (@k); RETURN (SELECT SUM(n) FROM items);",
+			"DECLARE items VIEW (n); INSERT INTO items VALUES (@k), (@k); UPDATE items SET n = n * 10; RETURN (SELECT SUM(n) FROM items);",
+			"VAR @base := 1000; DECLARE items VIEW (n) AS SELECT @base; RETURN (SELECT MAX(n) FROM items) + @k;",
+			"DECLARE c CURSOR FOR SELECT n * 2 FROM items WHERE n = @k; OPEN c; VAR @x; FETCH c INTO @x; CLOSE c; DECLARE items VIEW (n) AS SELECT 7; RETURN @x + (SELECT n FROM items);",
+			"IF @k > 1 THEN DECLARE items VIEW (n) AS SELECT 50; RETURN (SELECT n FROM items) + @k; END IF; RETURN (SELECT COUNT(*) FROM items);",
+		}[r.Intn(5)]
+		call := []string{"SELECT n, f(n) FROM items ORDER BY n;", "SELECT n, f(n) FROM `items.csv` ORDER BY n;", "SELECT n, f(n), @base FROM items WHERE f(n) > 0 ORDER BY n;", "SELECT i.n, f(i.n) FROM items i JOIN items j ON i.n = j.n ORDER BY i.n;"}[r.Intn(4)]
+		s, err := core.NewSess(core.SessOpts{Dir: w.Work, Quiet: true})
+		if err != nil {
+			w.Inconclusive(err.Error())
+			return
+		}
+		prog := "VAR @base := 5; DECLARE f FUNCTION (@k) AS BEGIN " + decl + " END;\nSELECT 'stmt', f(1), f(2), f(3);\n" + call + "\nSELECT 'file', COUNT(*), SUM(n), @base FROM items;"
+		res := s.Exec(prog)
+		s.Close()
+		viol := func(sig, what string) {
+			w.Violation(sig, what+"\n"+prog, c15Replay{Program: prog, GotErr: fmt.Sprint(res.Err)})
+		}
+		if res.Err != nil || len(res.Views) != 3 || len(res.Views[0].Rows) != 1 || len(res.Views[1].Rows) != 3 || len(res.Views[2].Rows) != 1 {
+			viol("query-call", fmt.Sprintf("the program failed or returned other tables than expected: %v", res.Err))
+			continue
+		}
+		for j, row := range res.Views[1].Rows {
+			if row[1].S != res.Views[0].Rows[0][1+j].S {
+				viol("query-call:locals", fmt.Sprintf("f(%d) called from the query returns %s, called from a statement %s", j+1, row[1].S, res.Views[0].Rows[0][1+j].S))
+				break
+			}
+		}
+		if f := res.Views[2].Rows[0]; f[1].S != "3" || f[2].S != "6" || f[3].S != "5" {
+			viol("query-call:caller-changed", fmt.Sprintf("after the calls the caller's file / variable read %v (expected 3 rows, sum 6, @base 5)", valsToStrs(f)))
+		}
+		if b, _ := os.ReadFile(filepath.Join(w.Work, "items.csv")); string(b) != "n\n1\n2\n3\n" {
+			viol("query-call:caller-changed", fmt.Sprintf("items.csv was rewritten: %q", string(b)))
+		}
+		w.Count("query_calls_of_functions_with_same_named_locals", 1)
+	}
+}
+
 func c15Case(w *core.Worker, i int) {
+	if i%40 == 9 {
+		c15LocalsOfQueryCalls(w, i)
+	}
 	r := w.Rng(i, "")
 	c15ViaQuery = i%3 == 1
 	if c15ViaQuery {
